@@ -3476,7 +3476,7 @@ class x86_mn(x86_mn_base):
                         break
 
                     for k in r:
-                        if not k in [x86_afs.imm, x86_afs.ad, x86_afs.size]:
+                        if not k in [x86_afs.imm, x86_afs.ad, x86_afs.size, 'txt']:
                             log.debug("mim: cannot encode reg ")
                             good_c = False
                             break
